@@ -375,6 +375,12 @@ func checkMain(propID, tier string) int {
 			propID, k.Name, r.Paths, r.States, r.Steps, r.Obligations, r.Ends, r.Queries["total"], r.Queries["sat"], r.Queries["unsat"], r.Queries["unknown"], r.SolverTimeS, r.WallS)
 		for _, v := range r.Known {
 			knownSeen[v.Known] = true
+			if !declared[v.Known] && only == "" {
+				fmt.Printf("INCONCLUSIVE property=%s kernel=%s harness reported known finding %s that the kernel registry does not declare\n", propID, k.Name, v.Known)
+				if exit == 0 {
+					exit = 2
+				}
+			}
 		}
 		for _, v := range r.Violations {
 			nviol++
